@@ -28,9 +28,27 @@ metas, clock reading and retention:
      hypothesis: LatestEpochSec is a uint32).  This was false before two repairs in /repo (the `break`
      left only the `switch`; the metrics sort key was a wrapped uint32 product): the old behaviour is kept
      as `volPassOld` with its two counterexample theorems.
+  6. the rewrite of segmeta.json itself (`removeSegmetas`, model `smRemove`), for a file of ANY number of
+     lines: the entries listed afterwards are exactly the entries whose key was not to be removed — same
+     order, each as often as before, contents untouched; two rewrites compose to the union; a repeated
+     rewrite changes nothing; index deletion keeps exactly the other indexes' entries;
+     `AddOrReplaceRotatedSegmeta` leaves exactly one entry of its key, the new one, last.  Guard: every
+     line is shorter than the scanner's 1 MiB limit (a line holds two paths and an index name); without
+     the guard the statement is false (counterexample; characterised: such a file is never rewritten).
+     The line-level rewrite refines the `segmeta` step of the protocol in 2.–4.; written-then-scanned
+     files deliver exactly the written lines (bufio.ScanLines mirrored).
+  7. metricmeta.json (`ReadMetricsMeta`, `removeMetricsSegmentsByList`, the metrics half of every pass): the
+     same statements for a file of any number of lines, each shorter than 64 KiB (both functions use a
+     DEFAULT bufio.Scanner).  A MetricsMeta line carries the segment's whole tag-key set, so the guard is
+     not vacuous in practice, and without it the code violates the property (known finding, counterexample
+     theorems): one longer line and `ReadMetricsMeta` returns an error — every pass returns without
+     deleting anything, expired segments stay for ever (metrics_pass_blocked_by_long_line) — and the
+     rewrite itself, which only logs the scanner's error, drops every entry from that line on, survivors
+     included (metricsmeta_rewrite_drops_tail).
 -/
 import SigModel.Model.Retention
 import SigModel.Lemmas.C14
+import SigModel.Lemmas.C14Sm
 
 namespace SigModel.Props.C14
 open SigModel.Retention SigModel.Lemmas.C14
@@ -431,5 +449,301 @@ theorem vol_oldest_first_old_counterexample_overflow :
                  [{ key := 1, latest := 1700000000000, kind := .log, size := 5 }]).2
   revert this
   decide
+
+/-! ### 6. the rewrite of segmeta.json (`removeSegmetas`, `AddOrReplaceRotatedSegmeta`) -/
+
+/-- the arguments the retention passes hand to `removeSegmetas` (through `RemoveSegMetas`): a non-nil map
+with at least one well-formed segment key, no index name -/
+def keyArgs (victim : Nat → Bool) : SmArgs := { victim := victim, anyValid := true }
+
+/-- the arguments of an index deletion (`DeleteSegmentsForIndex`): nil map, index name -/
+def indexArgs (i : Nat) : SmArgs := { nilMap := true, victim := fun _ => false, anyValid := false, index := some i }
+
+/-- the entries a rewrite has to keep: the parsed lines whose key is not to be removed, in file order -/
+def survivors (victim : Nat → Bool) (ls : List SmLine) : List SmLine :=
+  (ls.filter (·.isEntry)).filter (fun l => !victim l.key)
+
+theorem removes_keyArgs (victim : Nat → Bool) (l : SmLine) (h : l.isEntry = true) :
+    (keyArgs victim).removes l = victim l.key := by
+  cases l with
+  | entry k i u n => rfl
+  | junk u n => simp [SmLine.isEntry] at h
+
+/-- **The metadata file lists exactly the survivors**, for a segmeta.json of ANY size (any number of lines;
+each line shorter than the scanner's 1 MiB limit): after `removeSegmetas` the entries of the file are
+exactly the entries whose key was not to be removed — as a list: same order, same multiplicity, same
+contents (`uid`).  (When nothing survives the file is removed: no entries.) -/
+theorem segmeta_rewrite_exact (victim : Nat → Bool) (ls : List SmLine) (h : AllShort ls) :
+    smEntries (smRemove (keyArgs victim) (.lines ls)).1 = survivors victim ls := by
+  rw [smRemove_short (keyArgs victim) ls h rfl (by simp [smHasDirs, keyArgs]), smPreserved_eq]
+  unfold survivors
+  apply List.filter_congr
+  intro l hl
+  rw [removes_keyArgs victim l (List.mem_filter.mp hl).2]
+
+/-- every surviving entry is listed exactly as often as before (once, for a file without duplicates), no
+entry of a removed key is listed -/
+theorem segmeta_rewrite_each_once (victim : Nat → Bool) (ls : List SmLine) (h : AllShort ls) (l : SmLine)
+    (he : l.isEntry = true) :
+    (smEntries (smRemove (keyArgs victim) (.lines ls)).1).count l = if victim l.key then 0 else ls.count l := by
+  rw [segmeta_rewrite_exact victim ls h]
+  unfold survivors
+  by_cases hv : victim l.key = true
+  · simp only [hv, if_true]
+    apply List.count_eq_zero.mpr
+    intro hm
+    have := (List.mem_filter.mp hm).2
+    simp [hv] at this
+  · simp only [hv]
+    rw [List.count_filter (by simp [hv]), List.count_filter he]
+    simp
+
+/-- the order of the surviving lines is the order they had -/
+theorem segmeta_rewrite_order (victim : Nat → Bool) (ls : List SmLine) (h : AllShort ls) :
+    (smEntries (smRemove (keyArgs victim) (.lines ls)).1).Sublist ls := by
+  rw [segmeta_rewrite_exact victim ls h]
+  exact List.Sublist.trans List.filter_sublist List.filter_sublist
+
+/-- rewriting twice with the same key set is the same as rewriting once; two rewrites in a row remove the
+union of the two key sets -/
+theorem segmeta_rewrite_compose (v1 v2 : Nat → Bool) (ls : List SmLine) (h : AllShort ls) :
+    smEntries (smRemove (keyArgs v2) (smRemove (keyArgs v1) (.lines ls)).1).1
+      = survivors (fun k => v1 k || v2 k) ls := by
+  have hs := smRemove_fileShort (keyArgs v1) (.lines ls) h
+  have h1 := segmeta_rewrite_exact v1 ls h
+  cases hf : (smRemove (keyArgs v1) (.lines ls)).1 with
+  | missing =>
+    rw [hf] at h1
+    have : smRemove (keyArgs v2) SmFile.missing = (SmFile.missing, SmRet.dirs) := rfl
+    rw [this]
+    simp only [smEntries] at h1 ⊢
+    unfold survivors at h1 ⊢
+    rw [← filter_union, ← h1]; rfl
+  | lines ms =>
+    rw [hf] at h1 hs
+    rw [segmeta_rewrite_exact v2 ms hs]
+    have hm : ms.filter (·.isEntry) = survivors v1 ls := by
+      rw [← h1, smEntries_short ms hs]
+    unfold survivors at hm ⊢
+    rw [hm, filter_union]
+
+theorem segmeta_rewrite_idempotent (victim : Nat → Bool) (ls : List SmLine) (h : AllShort ls) :
+    smEntries (smRemove (keyArgs victim) (smRemove (keyArgs victim) (.lines ls)).1).1
+      = smEntries (smRemove (keyArgs victim) (.lines ls)).1 := by
+  rw [segmeta_rewrite_compose victim victim ls h, segmeta_rewrite_exact victim ls h]
+  unfold survivors
+  apply List.filter_congr; intro l _; simp
+
+/-- The full statement (no bound on the length of a line) is false for the code as it is: one line the
+scanner cannot deliver (≥ 1 MiB) and nothing is rewritten — the victim stays listed. -/
+theorem segmeta_rewrite_exact_counterexample :
+    ¬ ∀ (victim : Nat → Bool) (ls : List SmLine),
+        smEntries (smRemove (keyArgs victim) (.lines ls)).1 = survivors victim ls := by
+  intro h
+  have := h (fun k => k == 1) [.entry 1 0 1 300, .entry 2 0 2 smScanLimit]
+  revert this
+  decide
+
+/-- … and characterised: such a file is never changed by `removeSegmetas` -/
+theorem segmeta_rewrite_too_long_line_unchanged (a : SmArgs) (ls : List SmLine) (h : ∃ l ∈ ls, smScanLimit ≤ l.len) :
+    (smRemove a (.lines ls)).1 = .lines ls := by
+  apply smRemove_tooLong
+  obtain ⟨l, hl, hn⟩ := h
+  exact ⟨l, hl, by simp [SmLine.tooLong, hn]⟩
+
+example : AllShort [.entry 1 0 1 300, .junk 7 0, .entry 2 1 2 1048575] := by
+  intro l hl; simp at hl; rcases hl with rfl | rfl | rfl <;> decide
+
+theorem removes_indexArgs (i : Nat) (l : SmLine) : (indexArgs i).removes l = (l.isEntry && decide (l.idx = i)) := by
+  cases l <;> simp [SmArgs.removes, indexArgs, SmLine.isEntry, SmLine.idx] <;> rfl
+
+/-- index deletion (`DeleteSegmentsForIndex` → `removeSegmetas(nil, index)`), for a file of any size: exactly
+the entries of the other indexes stay, in order -/
+theorem segmeta_index_rewrite_exact (i : Nat) (ls : List SmLine) (h : AllShort ls) :
+    smEntries (smRemove (indexArgs i) (.lines ls)).1 = (ls.filter (·.isEntry)).filter (fun l => !decide (l.idx = i)) := by
+  by_cases hd : smHasDirs (indexArgs i) ls = true
+  · rw [smRemove_short (indexArgs i) ls h rfl hd, smPreserved_eq]
+    apply List.filter_congr
+    intro l hl
+    rw [removes_indexArgs, (List.mem_filter.mp hl).2]
+    simp
+  · simp only [Bool.not_eq_true] at hd
+    rw [smRemove_noDirs (indexArgs i) ls h hd, smEntries_short ls h]
+    symm
+    apply List.filter_eq_self.mpr
+    intro l hl
+    have hl' := List.mem_filter.mp hl
+    simp only [smHasDirs, Bool.false_or, Option.isSome_some, Bool.true_and,
+      show (indexArgs i).anyValid = false from rfl, show (indexArgs i).index = some i from rfl] at hd
+    have := (List.any_eq_false.mp hd) l hl'.1
+    rw [removes_indexArgs] at this
+    simp [hl'.2] at this
+    simp [this]
+
+/-- `AddOrReplaceRotatedSegmeta`, for a file of any size: the other segments' entries stay as they are and
+in order, the new entry is the last line -/
+theorem segmeta_add_or_replace (key idx uid len : Nat) (hl : len < smScanLimit) (ls : List SmLine) (h : AllShort ls) :
+    smEntries (smAddOrReplace key idx uid len (.lines ls))
+      = survivors (fun k => decide (k = key)) ls ++ [.entry key idx uid len] := by
+  have h1 := segmeta_rewrite_exact (fun k => decide (k = key)) ls h
+  have hs := smRemove_fileShort (keyArgs (fun k => decide (k = key))) (.lines ls) h
+  have hnew : AllShort [SmLine.entry key idx uid len] := by
+    intro l hl'; simp at hl'; subst hl'; exact hl
+  show smEntries (smAppend _ (smRemove (keyArgs (fun k => decide (k = key))) (.lines ls)).1) = _
+  cases hf : (smRemove (keyArgs (fun k => decide (k = key))) (.lines ls)).1 with
+  | missing =>
+    rw [hf] at h1
+    rw [← h1]
+    simp only [smAppend]
+    rw [smEntries_short _ hnew]
+    rfl
+  | lines ms =>
+    rw [hf] at h1 hs
+    rw [← h1]
+    simp only [smAppend]
+    have hall : AllShort (ms ++ [SmLine.entry key idx uid len]) := by
+      intro l hl'
+      rcases List.mem_append.mp hl' with hm | hm
+      · exact hs l hm
+      · exact hnew l hm
+    rw [smEntries_short _ hall, smEntries_short ms hs, List.filter_append]
+    rfl
+
+/-- … so afterwards exactly one entry carries the key: the new one -/
+theorem segmeta_add_or_replace_unique (key idx uid len : Nat) (hl : len < smScanLimit) (ls : List SmLine) (h : AllShort ls) :
+    (smEntries (smAddOrReplace key idx uid len (.lines ls))).filter (fun l => decide (l.key = key))
+      = [.entry key idx uid len] := by
+  rw [segmeta_add_or_replace key idx uid len hl ls h, List.filter_append]
+  have : (survivors (fun k => decide (k = key)) ls).filter (fun l => decide (l.key = key)) = [] := by
+    apply List.filter_eq_nil_iff.mpr
+    intro l hm
+    have := (List.mem_filter.mp hm).2
+    simpa using this
+  rw [this]
+  simp [SmLine.key]
+
+/-- the line-level rewrite refines the `segmeta` step of the delete protocol above (`applyStep (.segmeta ks)`):
+the keys listed afterwards are the same -/
+theorem segmeta_step_refines (ks : List Nat) (ms : List Meta) (s : Store) (hs : s.segmetaJson = ms) :
+    (smEntries (smRemove (keyArgs (fun k => decide (k ∈ ks))) (smOfMetas ms)).1).map (·.key)
+      = ((applyStep s (.segmeta ks)).segmetaJson).map (·.key) := by
+  have hshort : AllShort (ms.map (fun m => SmLine.entry m.key m.org m.key 300)) := by
+    intro l hl
+    obtain ⟨m, _, rfl⟩ := List.mem_map.mp hl
+    show 300 < smScanLimit
+    decide
+  unfold smOfMetas
+  rw [segmeta_rewrite_exact _ _ hshort]
+  simp only [applyStep, hs]
+  unfold survivors
+  induction ms generalizing s with
+  | nil => rfl
+  | cons m r ih =>
+    have ih' := ih (s := { s with segmetaJson := r }) rfl (by
+      intro l hl; exact hshort l (by simp [List.mem_map] at hl ⊢; rcases hl with ⟨a, ha, rfl⟩; exact Or.inr ⟨a, ha, rfl⟩))
+    by_cases hk : m.key ∈ ks
+    · simp [SmLine.isEntry, SmLine.key, hk] at ih' ⊢
+      exact ih'
+    · simp [SmLine.isEntry, SmLine.key, hk] at ih' ⊢
+      exact ih'
+
+/-- written, then scanned: the scanner delivers exactly the lines that were written, for a file of any
+length — provided no line contains a newline or ends in '\r' (json.Marshal escapes both) -/
+theorem segmeta_file_lines_roundtrip (ls : List (List Nat)) (h : ∀ l ∈ ls, 10 ∉ l ∧ l.getLast? ≠ some 13) :
+    smSplitLines (smJoinLines ls) = ls := by
+  unfold smSplitLines
+  induction ls with
+  | nil => rfl
+  | cons l r ih =>
+    have hl := h l (by simp)
+    have : smJoinLines (l :: r) = l ++ 10 :: smJoinLines r := by simp [smJoinLines]
+    rw [this, smSplitAux_line l _ [] hl.1, ih (fun x hx => h x (by simp [hx]))]
+    simp [smDropCR, hl.2]
+
+
+/-! ### 7. metricmeta.json: the reader and the rewrite use a 64 KiB scanner -/
+
+/-- the rewrite of metricmeta.json, for a file of any number of lines, each shorter than 64 KiB: what
+`ReadMetricsMeta` finds afterwards is exactly the entries whose key was not to be removed, in order, and it
+reports no error -/
+theorem metricsmeta_rewrite_exact (victim : Nat → Bool) (ls : List SmLine) (h : AllShorter mmScanLimit ls) :
+    mmRead (mmRemove false victim (.lines ls)) = (survivors victim ls, false) := by
+  unfold mmRemove
+  simp only [Bool.false_eq_true, if_false, smScanWith_allShorter mmScanLimit ls h]
+  by_cases hv : ((ls.filter (·.isEntry)).any (fun l => victim l.key)) = true
+  · simp only [hv, Bool.not_true, Bool.false_eq_true, if_false]
+    by_cases he : ((ls.filter (·.isEntry)).filter (fun l => !victim l.key)).isEmpty = true
+    · simp only [he, if_true, mmRead]
+      unfold survivors
+      rw [List.isEmpty_iff.mp he]
+    · simp only [he, Bool.false_eq_true, if_false, mmRead]
+      have hs : AllShorter mmScanLimit ((ls.filter (·.isEntry)).filter (fun l => !victim l.key)) :=
+        fun l hl => h l (List.mem_filter.mp (List.mem_filter.mp hl).1).1
+      rw [smScanWith_allShorter mmScanLimit _ hs]
+      unfold survivors
+      congr 1
+      apply List.filter_eq_self.mpr
+      intro l hl
+      exact (List.mem_filter.mp (List.mem_filter.mp hl).1).2
+  · simp only [Bool.not_eq_true] at hv
+    simp only [hv, Bool.not_false, if_true, mmRead, smScanWith_allShorter mmScanLimit ls h]
+    unfold survivors
+    congr 1
+    symm
+    apply List.filter_eq_self.mpr
+    intro l hl
+    have := (List.any_eq_false.mp hv) l hl
+    simpa using this
+
+/-- The full statement (lines of any length — a MetricsMeta line carries the segment's whole tag-key set) is
+false for the code as it is: the rewrite goes on after the scanner's error with the lines it got, so every
+entry from the first line of ≥ 64 KiB on is dropped from the file, survivors included. -/
+theorem metricsmeta_rewrite_exact_counterexample :
+    ¬ ∀ (victim : Nat → Bool) (ls : List SmLine),
+        (mmRead (mmRemove false victim (.lines ls))).1 = survivors victim ls := by
+  intro h
+  have := h (fun k => k == 1) [.entry 1 0 1 300, .entry 2 0 2 300, .entry 3 0 3 mmScanLimit, .entry 4 0 4 300]
+  revert this
+  decide
+
+/-- … characterised: with a victim before the first over-long line, the rewritten file lists the
+survivors among the lines BEFORE it and nothing else -/
+theorem metricsmeta_rewrite_drops_tail (victim : Nat → Bool) (pre post : List SmLine) (long : SmLine)
+    (hp : AllShorter mmScanLimit pre) (hl : mmScanLimit ≤ long.len)
+    (hv : ((pre.filter (·.isEntry)).any (fun l => victim l.key)) = true) :
+    mmRead (mmRemove false victim (.lines (pre ++ long :: post))) = (survivors victim pre, false) := by
+  have hsc := smScanWith_prefix mmScanLimit pre post long hp hl
+  have := metricsmeta_rewrite_exact victim pre hp
+  unfold mmRemove at this ⊢
+  simp only [Bool.false_eq_true, if_false, smScanWith_allShorter mmScanLimit pre hp, hsc, hv, Bool.not_true] at this ⊢
+  exact this
+
+/-- the metrics half of a pass over a file of short lines: exactly the entries whose key's (last) entry is
+expired are gone afterwards -/
+theorem metrics_pass_exact (expired : SmLine → Bool) (ls : List SmLine) (h : AllShorter mmScanLimit ls) :
+    mmRead (mmPass expired (.lines ls)) = (survivors (mmExpiredKey expired (ls.filter (·.isEntry))) ls, false) := by
+  unfold mmPass
+  simp only [mmRead, smScanWith_allShorter mmScanLimit ls h, Bool.false_eq_true, if_false]
+  exact metricsmeta_rewrite_exact _ ls h
+
+/-- One line of ≥ 64 KiB in metricmeta.json and no pass deletes anything any more (`ReadMetricsMeta` returns
+an error, all three passes return): expired segments stay listed, for ever. -/
+theorem metrics_pass_blocked_by_long_line (expired : SmLine → Bool) (ls : List SmLine)
+    (h : ∃ l ∈ ls, mmScanLimit ≤ l.len) : mmPass expired (.lines ls) = .lines ls := by
+  unfold mmPass
+  simp [mmRead, smScanWith_tooLong mmScanLimit ls h]
+
+/-- so "every expired metrics segment is deleted" is false without the bound on the line length -/
+theorem metrics_pass_deletes_expired_counterexample :
+    ¬ ∀ (expired : SmLine → Bool) (ls : List SmLine) (l : SmLine),
+        l ∈ ls → l.isEntry = true → expired l = true → l ∉ (mmRead (mmPass expired (.lines ls))).1 := by
+  intro h
+  have := h (fun l => l.key == 1) [.entry 1 0 1 300, .entry 2 0 2 mmScanLimit] (.entry 1 0 1 300)
+    (by simp) rfl rfl
+  revert this
+  decide
+
+example : AllShorter mmScanLimit [.entry 1 0 1 300, .entry 2 1 2 65535] := by
+  intro l hl; simp at hl; rcases hl with rfl | rfl <;> decide
 
 end SigModel.Props.C14
